@@ -206,7 +206,7 @@ def gen_compare(tier):
                 yield {'fn': 'cmp', 'A': a, 'B': b, 'rel': rel}
 
 
-RHS_FORMS = ['A$', 'MID$(A$,2)', 'LEFT$(A$,1)', 'A$+""']
+RHS_FORMS = ['A$', 'MID$(A$,2)', 'LEFT$(A$,1)', 'A$+""', 'LEFT$(A$,255)', 'RIGHT$(A$,255)', 'MID$(A$,1)', 'MID$(A$,1,255)']
 
 
 def gen_midstmt(tier):
@@ -530,7 +530,8 @@ def _rhs_value(rhs, a, b):
         return a[:1]
     if rhs == 'LEFT$(A$,2)':
         return a[:2]
-    if rhs == 'A$+""':
+    if rhs in ('A$+""', 'LEFT$(A$,255)', 'RIGHT$(A$,255)', 'MID$(A$,1)', 'MID$(A$,1,255)'):
+        # the whole value, but a function result: not the variable itself
         return a
     if rhs == 'A$+"q"':
         return a + b'q'
